@@ -15,7 +15,7 @@
 namespace vd {
 using namespace vt;
 
-enum Mode { M_C02 = 2, M_C04 = 4, M_C05 = 5 };
+enum Mode { M_C02 = 2, M_C04 = 4, M_C05 = 5, M_C09 = 9 };  // M_C09: only the consistency of DetailedPlacer::value() with the from-scratch wirelength
 
 struct Sink {
   vf::Verdicts out;
@@ -342,7 +342,7 @@ inline void evalPasses(const Spec &s, vf::Ctx &ctx, Mode mode, Sink &sink, int m
     return;
   }
   long long hpwl0 = c.hpwl();
-  if (mode == M_C05) {
+  if (mode == M_C05 || mode == M_C09) {
     // model value equals from-scratch wirelength on nets of >= 2 pins (documented scope)
     long long ref = refHpwl(c, true);
     if (init->value() != ref)
@@ -374,7 +374,7 @@ inline void evalPasses(const Spec &s, vf::Ctx &ctx, Mode mode, Sink &sink, int m
       CallResult r = guarded([&] { applyPass(q, pm); });
       ctx.count("transitions");
       if (r.threw) {
-        if (mode == M_C02) sink.add("pass-throws", r.what + " on " + histStr(cur, &pm) + " | " + describe(s));
+        if (mode == M_C02 || mode == M_C09) sink.add("pass-throws", r.what + " on " + histStr(cur, &pm) + " | " + describe(s));
         continue;
       }
       Circuit ex = c;
@@ -396,6 +396,15 @@ inline void evalPasses(const Spec &s, vf::Ctx &ctx, Mode mode, Sink &sink, int m
       if (mode == M_C04) {
         std::string why = polarityCheck(ex, orientInput);
         if (!why.empty()) sink.add("pass-state-polarity:" + why, "after " + histStr(cur, &pm) + ": " + placementStr(ex) + " | " + describe(s));
+      }
+      if (mode == M_C09) {
+        CallResult cr = guarded([&] { q.check(); });
+        if (cr.threw) sink.add("placer-state-fails-check", cr.what + " after " + histStr(cur, &pm) + " | " + describe(s));
+        if (!flipped) {
+          long long ref = refHpwl(ex, true);
+          if (q.value() != ref)
+            sink.add("model-value-drifts", "value() " + std::to_string(q.value()) + " != from-scratch " + std::to_string(ref) + " after " + histStr(cur, &pm) + " | " + describe(s));
+        }
       }
       if (mode == M_C05) {
         if (h > states[cur].hpwl) {
@@ -737,7 +746,7 @@ inline void enumerateDetailed(bool thorough, Mode mode, const std::function<void
         for (int i = 0; i < n; ++i) s.cells[i].polarity = pv[i];
         auto menu = netMenu(s, 1);
         for (size_t k = 1; k < menu.size(); ++k) {
-          if (mode != M_C05 && k != 2 && k != 3) continue;
+          if (mode != M_C05 && mode != M_C09 && k != 2 && k != 3) continue;
           Spec t = s;
           t.nets = menu[k];
           t.aux = 2;
